@@ -252,29 +252,40 @@ def _resolution(ctx):
         if site == 'render':
             app.resp_options.media_handlers['application/x-raise'] = _raising_media_handler(make)
         regs = []
-        for k in range(rnd.randint(0, 6)):
-            style = rnd.choice(['single', 'single', 'single', 'tuple', 'static'])
-            cands = classes + [Exception, falcon.HTTPError, falcon.HTTPStatus, LookupError, falcon.HTTPNotFound, BaseException]
-            if style == 'static':
-                havers = [c for c in classes if getattr(c, 'handle', None) is not None]
-                if not havers:
-                    style = 'single'
+
+        def do_regs(k0, n):
+            for k in range(k0, k0 + n):
+                style = rnd.choice(['single', 'single', 'single', 'tuple', 'static'])
+                cands = classes + [Exception, falcon.HTTPError, falcon.HTTPStatus, LookupError, falcon.HTTPNotFound, BaseException]
+                if style == 'static':
+                    havers = [c for c in classes if getattr(c, 'handle', None) is not None]
+                    if not havers:
+                        style = 'single'
+                    else:
+                        c = rnd.choice(havers)
+                        app.add_error_handler(c)
+                        hid = next(static_ids[b] for b in c.__mro__ if b in static_ids and 'handle' in b.__dict__)
+                        history.append((c, hid)); regs.append(('static', c.__name__, hid))
+                        continue
+                if style == 'tuple':
+                    cs = tuple(rnd.sample(cands, 2))
+                    app.add_error_handler(cs, mkhandler(k, sets := rnd.random() < 0.7))
+                    for c in cs:
+                        history.append((c, k))
+                    regs.append(('tuple', [c.__name__ for c in cs], k, sets))
                 else:
-                    c = rnd.choice(havers)
-                    app.add_error_handler(c)
-                    hid = next(static_ids[b] for b in c.__mro__ if b in static_ids and 'handle' in b.__dict__)
-                    history.append((c, hid)); regs.append(('static', c.__name__, hid))
-                    continue
-            if style == 'tuple':
-                cs = tuple(rnd.sample(cands, 2))
-                app.add_error_handler(cs, mkhandler(k, sets := rnd.random() < 0.7))
-                for c in cs:
-                    history.append((c, k))
-                regs.append(('tuple', [c.__name__ for c in cs], k, sets))
-            else:
-                c = rnd.choice(cands)
-                app.add_error_handler(c, mkhandler(k, sets := rnd.random() < 0.7))
-                history.append((c, k)); regs.append(('single', c.__name__, k, sets))
+                    c = rnd.choice(cands)
+                    app.add_error_handler(c, mkhandler(k, sets := rnd.random() < 0.7))
+                    history.append((c, k)); regs.append(('single', c.__name__, k, sets))
+
+        n1 = rnd.randint(0, 5)
+        do_regs(0, n1)
+        warmed = rnd.random() < 0.45
+        if warmed:
+            # a request is served BEFORE further handlers are registered: a later registration of a nearer class must still win
+            _call(app, stack, via_testing=False)
+            del called[:]
+        do_regs(n1, rnd.randint(0, 3) if warmed else rnd.randint(0, 1))
         r = _call(app, stack, via_testing=(ci % 16 == 0))
         mro = exc_cls.__mro__[:-1]
         # ---- oracle: independent argmin over the MRO; the three default registrations are part of the history
@@ -315,7 +326,7 @@ def _resolution(ctx):
                 what = f'custom handler set no body but {r.body[:60]!r} was sent'
         case = {'stack': stack, 'site': site, 'raised': exc_cls.__name__, 'mro': [c.__name__ for c in mro],
                 'classes': {c.__name__: [b.__name__ for b in c.__bases__] for c in classes},
-                'registrations_after_defaults': regs, 'via_testing': ci % 16 == 0}
+                'registrations_after_defaults': regs, 'registrations_before_first_request': n1 if warmed else None, 'via_testing': ci % 16 == 0}
         ctx.oracle(name, what is None, what, case)
         sess.case(case)
         sess.op('new', 'ok')
